@@ -109,7 +109,7 @@ Definition push_poll (s : push) : ppoll := mkPoll None (Some (ps_writable s)).
    pinned text (the wait list is left alone); [push_step_r fr] is the step for either text,
    fr = Gen/Consts.v C06_PUSH_RESIZE_ADMITS_FIXED; it differs from push_step only on an in-range
    NNG_OPT_SENDBUF when fr = true. *)
-Definition push_resize_admit (s : push) (n : nat) : push * list pout :=
+Definition push_resize_takein (s : push) (n : nat) : push * list pout :=
   let wq1 := firstn n (ps_wq s) in
   let room := n - length wq1 in
   let adm := firstn room (ps_aq s) in
@@ -124,6 +124,6 @@ Definition push_resize_admit (s : push) (n : nat) : push * list pout :=
 Definition push_step_r (fr : bool) (s : push) (o : pop) : push * list pout :=
   match o with
   | PSetOpt _ (OSendBuf n) =>
-      if fr && negb (8192 <? N.of_nat n)%N then push_resize_admit s n else push_step s o
+      if fr && negb (8192 <? N.of_nat n)%N then push_resize_takein s n else push_step s o
   | _ => push_step s o
   end.
